@@ -8,7 +8,8 @@ expression must raise (any exception class counts as loud and is recorded); for 
 it must NOT raise. NaN clause: in a stiff sweep every requested statistic is finite, or an exception was raised,
 or a phasegen log record (WARNING or above) was emitted.
 
-Signatures: `not-rejected:<class>:<route>`, `valid-rejected:<class>:<route>`, `silent-nonfinite:<statistic>`.
+Signatures: `not-rejected:<class>:<route>`, `valid-rejected:<class>:<route>`, `silent-nonfinite:<statistic>`,
+`silent-complex:<statistic>` (square root of a negative variance returned as a complex number).
 """
 import os
 for _v in ('OMP_NUM_THREADS', 'OPENBLAS_NUM_THREADS', 'MKL_NUM_THREADS'):
@@ -527,7 +528,8 @@ def eval_stiff(ctx, pg, sc):
         ctx.case(dict(cfg=cfg, stat=st, outcome=outcome), (repr(cfg), st))
         ctx.count(f'stiff:{outcome}'); ctx.count(f'stiff:{cfg["model"][0]}')
         if outcome == 'SILENT-NONFINITE':
-            ctx.violation(f'silent-nonfinite:{stat_name(st)}', family='stiff', scenario=dict(sc, stats=[st]), stat=st,
+            kind = 'silent-complex' if np.iscomplexobj(arr) else 'silent-nonfinite'
+            ctx.violation(f'{kind}:{stat_name(st)}', family='stiff', scenario=dict(sc, stats=[st]), stat=st,
                           expected='finite value, an exception, or a phasegen log record',
                           observed=str(arr.tolist())[:300],
                           reproducer=f'cfg = {cfg!r}; t = {sc["t"]!r}; theta = {sc["theta"]!r}; c = props.c20.make_stiff(pg, cfg); {st}')
@@ -556,17 +558,17 @@ def run(ctx):
     import check
     q = ctx.quick
     T = table()
-    reps = 3 if q else 12
+    reps = 3 if q else 20
     step = 6
     items = [('tab', i, min(i + step, len(T)), reps) for i in range(0, len(T), step)]
-    items += [('stiff', i) for i in range(120 if q else 1500)]
+    items += [('stiff', i) for i in range(120 if q else 4000)]
     ctx.rng.shuffle(items)
     check.pmap(ctx, 'props.c20', 'one', items, case_timeout=300 if q else 900)
 
 
 def replay(ctx, payload):
     pg = C.import_phasegen()
-    if payload.get('family') == 'stiff' or payload['signature'].startswith('silent-nonfinite'):
+    if payload.get('family') == 'stiff' or payload['signature'].startswith('silent-'):
         eval_stiff(ctx, pg, payload['scenario'])
     else:
         eval_request(ctx, pg, payload['cls'], payload['expr'], payload['values'], payload['expect'])
